@@ -59,6 +59,15 @@ def internal_helpers(prog, fns, max_depth=Cap.MAX_INLINE):
         for f in fs:
             if f.static and f.name not in used_as_value and callers.get(f.name) and f.name not in callers[f.name]:
                 cand[f.name, uname] = (f, callers[f.name], u)
+    # a static function of `fns` none of whose callers is analysed here (its callers are outside the scope: the constructors in
+    # front of a parser that this check analyses from every legal state) is an entry point of the analysed set, not a helper
+    changed = True
+    while changed:
+        changed = False
+        for (name, uname), (f, cs, u) in list(cand.items()):
+            if not any((c, uname) in cand or (u.functions.get(c) is not None and id(u.functions.get(c)) in inset) for c in cs):
+                del cand[name, uname]
+                changed = True
     # depth: a helper is internal when every caller is an analysed non-helper (depth 1) or a helper of smaller depth
     depth = {}
     changed = True
